@@ -20,9 +20,10 @@ NEEDS_DEPS = ["numpy"]
 RULE = ("a case is one valid joblib file (object from the C03 generator, sometimes with numpy arrays, any compressor, "
         "protocol 2-5) x its damaged variants: every strict prefix for files <= 4 KiB (exhaustive), boundary-biased "
         "prefixes otherwise (0, 1, header, +-1 around 8192*k, last 9 bytes), zlib / gzip files built so that their length modulo 8192 is 0, 1..9, 12, 8190, 8191, loads through a raw stream delivering at most 1 / 13 / 4096 / 8191 bytes per read, and suffixes {1 byte, 4 junk bytes, 8 KiB "
-        "junk, a second copy of the same stream, a different valid stream}; plus Memory entries whose output.pkl is "
+        "junk, a second copy of the same stream, a different valid stream}; plus Memory entries (called directly or through call_and_shelve(...).get()) whose output.pkl or metadata.json is "
         "damaged the same ways; distinct_nontrivial counts distinct (file digest, damage) loads")
 ASSUMPTIONS = [
+    "call_and_shelve(...).get() on an entry whose output.pkl is damaged may raise (a reference cannot recompute) but must not return another value; with a damaged metadata.json it must still return the value",
     "budgets per load: executed lines in joblib/{compressor,numpy_pickle,numpy_pickle_utils,numpy_pickle_compat}.py "
     "<= 20000 + 200*len(file); CPU time <= max(5 s, 1000 x the undamaged load); address space <= 2 GiB - a MemoryError "
     "while loading a file of at most ~1 MiB is resource exhaustion, not a clean failure",
@@ -282,10 +283,19 @@ def run_memory(case, ctx):
         L = len(raw)
         damages = [("truncated", c) for c in sorted({0, 1, L // 2, L - 1, L - 4, rng.randrange(L), rng.randrange(L)}) if 0 <= c < L]
         damages += [("extended", s) for s in (b"\x00", b"junk", raw, rng.randbytes(8192))]
+        # the entry's other file, metadata.json, damaged the same way (strict prefixes; extra bytes: NUL, ASCII, valid and invalid UTF-8,
+        # a second document, itself)
+        mpath = os.path.join(os.path.dirname(path), "metadata.json")
+        mraw = open(mpath, "rb").read()
+        ML = len(mraw)
+        damages += [("meta-truncated", c) for c in sorted({0, 1, ML // 2, ML - 1, rng.randrange(ML)}) if 0 <= c < ML]
+        damages += [("meta-extended", s) for s in (b"\x00", b"junk", b"\xff", b"\xe4\xb8", "\u00e9".encode(), b'{"a": 1}', mraw, b"garbage \xfe\xff garbage")]
         for kind, dmg in damages:
-            data = raw[:dmg] if kind == "truncated" else raw + dmg
-            with open(path, "wb") as fh:
+            target, traw = (mpath, mraw) if kind.startswith("meta-") else (path, raw)
+            data = traw[:dmg] if kind.endswith("truncated") else traw + dmg
+            with open(target, "wb") as fh:
                 fh.write(data)
+            via_shelve = rng.random() < 0.4
             del EXEC[:]
             ctx.evaluated()
             lb, cpu = _B["lb"], _B["cpu"]
@@ -294,7 +304,7 @@ def run_memory(case, ctx):
             try:
                 with warnings.catch_warnings():
                     warnings.simplefilter("ignore")
-                    got = f(x, n)
+                    got = f.call_and_shelve(x, n).get() if via_shelve else f(x, n)
                 err = None
             except (Exception, budget.StepBudgetExceeded, budget.CpuBudgetExceeded) as e:  # noqa
                 got, err = None, f"{type(e).__name__}: {str(e)[:150]}"
@@ -302,12 +312,19 @@ def run_memory(case, ctx):
                 cpu.disarm()
                 lb.disarm()
             ctx.count("memory_damaged_calls")
-            label = dmg if kind == "truncated" else f"+{len(dmg)}B"
+            if kind.startswith("meta-"):
+                ctx.count("memory_damaged_metadata_calls")
+            label = dmg if kind.endswith("truncated") else f"+{len(dmg)}B"
             ctx.sig(("memory", compress, n, kind, label))
+            if err and via_shelve and not kind.startswith("meta-") and not err.startswith(("StepBudget", "CpuBudget", "MemoryError")):
+                # a reference cannot recompute: reading a damaged result through it may raise (never return something else)
+                ctx.count("shelved_reference_to_damaged_result_raised")
+                err = None
+                got = want
             if err:
                 exhausted = err.startswith(("StepBudget", "CpuBudget", "MemoryError"))
                 ctx.violation(("nontermination:" if exhausted else "raises:") + f"memory+{kind}",
-                              f"cached call on an output.pkl {kind} ({label}; compress={compress}, {L} bytes) -> {err}",
+                              f"{'call_and_shelve(...).get()' if via_shelve else 'cached call'} on an entry whose {'metadata.json' if kind.startswith('meta-') else 'output.pkl'} is {kind} ({label}; compress={compress}, {L} bytes) -> {err}",
                               dict(compress=compress, kind=kind, damage=label, n=n))
                 break
             if got != want:
@@ -317,5 +334,7 @@ def run_memory(case, ctx):
             # restore a valid entry for the next damage
             with open(path, "wb") as fh:
                 fh.write(raw)
+            with open(mpath, "wb") as fh:
+                fh.write(mraw)
     finally:
         shutil.rmtree(d, ignore_errors=True)
